@@ -53,6 +53,9 @@ theorem C17_each_once (h : Header) (hv : h.Valid) (hs : 0 < h.step) : (seqIters 
   have := Int.eq_of_mul_eq_mul_left (Int.ne_of_gt hs) key
   exact Int.ofNat.inj this
 
+example : (⟨10, 1, .gt, false, .subEq 4⟩ : Header).Valid = False ∧ (⟨10, 1, .lt, false, .subEq 4⟩ : Header).Valid ∧
+    seqIters ⟨10, 1, .lt, false, .subEq 4⟩ = [10, 6, 2] ∧ (⟨10, 1, .lt, false, .subEq 4⟩ : Header).DimInRange := by decide
+
 /-- (a) run-time bounds that make the loop empty — by any amount — launch nothing. -/
 theorem C17_empty_range (h : Header) (hv : h.Valid) (hs : 0 < h.step) (hr : h.DimInRange)
     (hempty : h.test h.init = false) : launchIters h = [] := by
